@@ -141,6 +141,10 @@ def build(cfg, memdir=None):
         n_warm, kw["adapters"] = 0, []
     elif cfg["stages"] == "two":
         n_warm, kw["adapters"] = 2, []
+    elif cfg["stages"] == "adaptive_metric":
+        # a cross-chain metric adapter: its finalize pools the states of all chains that ran
+        n_warm = 3
+        kw["adapters"] = [mici.adapters.OnlineVarianceMetricAdapter()]
     else:
         n_warm = 2
         kw["adapters"] = [QuietInitAdapter()]
@@ -702,6 +706,13 @@ def configs(tier, seed):
                         if n_chain == 2 and storage == "memory" and twu and \
                                 (not quick or stages != "two"):
                             cfgs.append(dict(base, mode="real", n_process=2))
+    for n_chain in (2, 3):
+        for twu in (True, False):
+            base = {"stages": "adaptive_metric", "storage": "memory", "n_chain": n_chain,
+                    "n_main": 2, "trace_warm_up": twu, "sampler": "static", "seed": seed}
+            cfgs.append(dict(base, mode="sequential"))
+            if not quick or twu:
+                cfgs.append(dict(base, mode="simulated", n_process=2, bound=0, max_leaves=60))
     return cfgs
 
 
